@@ -1,0 +1,16 @@
+//go:build verif
+
+package ls
+
+// VerifPoint, when set, is called at every point of the server where state shared
+// between request handlers (the document map, the client connection) is about to
+// be read or written. It exists for the model-checking harness only (build tag
+// "verif"), which parks the calling goroutine there to control the interleaving
+// of handlers. It must be set before the server starts handling requests.
+var VerifPoint func(name string)
+
+func verifPoint(name string) {
+	if VerifPoint != nil {
+		VerifPoint(name)
+	}
+}
